@@ -245,6 +245,22 @@ func QuoteDoc(r *core.Rand, doc []byte) []byte {
 	return b.Bytes()
 }
 
+// QuoteDocNoSpace prefixes every line with a block quote marker, leaving out
+// the marker's optional space wherever the line does not start with a space
+// (so that the line's content is unchanged).
+func QuoteDocNoSpace(doc []byte) []byte {
+	var b bytes.Buffer
+	for _, l := range SplitLines(doc) {
+		if len(l) > 0 && (l[0] == ' ' || l[0] == '\t') {
+			b.WriteString("> ")
+		} else {
+			b.WriteString(">")
+		}
+		b.Write(l)
+	}
+	return b.Bytes()
+}
+
 // ListItemDoc prefixes the first line with marker + n spaces and the other
 // lines with the same width of spaces.
 func ListItemDoc(doc []byte, marker string, n int) []byte {
